@@ -103,7 +103,7 @@ func TestVerifC18FirstUse(t *testing.T) {
 					gx, gy = *ex, *ey
 				})
 				if p || gx != wantX[i] || gy != wantY[i] {
-					d := hk.D{"entry": es[i].where, "phase": phase, "goroutine": who, "trial": trial, "scalar": es[i].k.Text(16), "want": ptHex(want[i]), "panic": pm,
+					d := hk.D{"entry": es[i].where, "phase": phase, "goroutine": who, "trial": trial, "scalar": es[i].k.Text(16), "want": zvPtHex(want[i]), "panic": pm,
 						"got_internal_limbs_x": fmt.Sprintf("%016x", gx), "got_internal_limbs_y": fmt.Sprintf("%016x", gy)}
 					r.Violation("table-entry-wrong:"+es[i].name+":"+phase, d)
 					return
@@ -116,11 +116,11 @@ func TestVerifC18FirstUse(t *testing.T) {
 	ks := make([][]byte, workers)
 	wantPt := make([]ref.Pt, workers)
 	for i := range ks {
-		ks[i] = ref.B32(randScalarI(rng))
+		ks[i] = ref.B32(zvRandScalarI(rng))
 		wantPt[i] = ref.BaseMulFast(ref.Int(ks[i]))
 	}
-	P := ref.BaseMulFast(randScalarI(rng))
-	s2 := ref.B32(randScalarI(rng))
+	P := ref.BaseMulFast(zvRandScalarI(rng))
+	s2 := ref.B32(zvRandScalarI(rng))
 	wantMixed := make([]ref.Pt, workers)
 	for i := range ks {
 		wantMixed[i] = wantPt[i].Add(P.Mul(ref.Int(s2)))
@@ -146,7 +146,7 @@ func TestVerifC18FirstUse(t *testing.T) {
 				case 4:
 					got, err = scalarBaseMult_SkipBitExtraction_7_3_12(ks[w])
 				default:
-					got, err = ScalarMixedMult_Unsafe(ks[w], fromRef(P, bi(1)), s2)
+					got, err = ScalarMixedMult_Unsafe(ks[w], zvFromRef(P, zvBi(1)), s2)
 				}
 			})
 			wantP := wantPt[w]
@@ -162,8 +162,8 @@ func TestVerifC18FirstUse(t *testing.T) {
 				d["err"] = err.Error()
 				r.Violation("first-use-base-multiplication-fails", d)
 			default:
-				if g, _ := toRef(got); !g.Eq(wantP) {
-					d["got"], d["want"] = ptHex(g), ptHex(wantP)
+				if g, _ := zvToRef(got); !g.Eq(wantP) {
+					d["got"], d["want"] = zvPtHex(g), zvPtHex(wantP)
 					r.Violation("first-use-base-multiplication-wrong", d)
 				}
 			}
